@@ -2,7 +2,6 @@ package main
 
 import (
 	"go/ast"
-	"go/token"
 	"go/types"
 	"strings"
 )
@@ -25,258 +24,6 @@ func checkC16(r *Run) {
 	loopReturnRuleSSA(r, "R5")
 	firstClassRule(r, "R6")
 	coreReturnRule(r, "R7")
-}
-
-func userFunctionCallRule(r *Run) {
-	w := r.W
-	f := w.userFunctionEval()
-	evalExpr := w.evalMethod("Expression")
-	if f == nil || evalExpr == nil {
-		r.Lost("R1", "user-function call evaluator")
-		return
-	}
-	info := f.Pkg.TypesInfo
-	ctxF := w.compilerField("ctx")
-	sig := f.Obj.Type().(*types.Signature)
-	var argsP, fnP *types.Var
-	for i := 0; i < sig.Params().Len(); i++ {
-		p := sig.Params().At(i)
-		if sl, ok := p.Type().(*types.Slice); ok && namedIs(sl.Elem(), astPath, "Expression") {
-			argsP = p
-		} else {
-			fnP = p
-		}
-	}
-	if argsP == nil || fnP == nil {
-		r.Lost("R1", "parameters of the user-function call evaluator")
-		return
-	}
-	// events
-	var evals []*ast.CallExpr
-	var binds []*ast.CallExpr
-	var install token.Pos
-	for _, c := range callsIn(f.Decl.Body, true) {
-		cal := calleeOf(info, c)
-		if cal == evalExpr.Obj {
-			evals = append(evals, c)
-		}
-		if cal != nil && cal.Name() == "Set" {
-			if sel, ok := unparen(c.Fun).(*ast.SelectorExpr); ok {
-				if _, fld := fieldOf(info, sel.X); fld == ctxF {
-					binds = append(binds, c)
-				}
-			}
-		}
-	}
-	for _, s := range w.ctxStoresOf(f) {
-		if s.deferred == nil && s.lit == nil {
-			install = s.as.Pos()
-		}
-	}
-	enclosingLoop := func(n ast.Node) ast.Node {
-		for p := w.Parent(n); p != nil; p = w.Parent(p) {
-			switch p.(type) {
-			case *ast.ForStmt, *ast.RangeStmt:
-				return p
-			case *ast.FuncDecl:
-				return nil
-			}
-		}
-		return nil
-	}
-	for _, e := range evals {
-		con := "argument evaluation " + short(w.Fset, e)
-		bad := ""
-		if install.IsValid() && e.Pos() > install {
-			bad = "it happens after the function's own scope was installed (the argument is evaluated in the callee's scope)"
-		}
-		for _, b := range binds {
-			if e.Pos() > b.Pos() {
-				bad = "it happens after a parameter was bound"
-			}
-			if l := enclosingLoop(e); l != nil && l == enclosingLoop(b) {
-				bad = "it shares a loop with the parameter binding: argument i+1 is evaluated after parameter i is bound and sees it instead of the caller's variable of the same name"
-			}
-		}
-		if bad == "" {
-			r.Ok("R1", f.Name(), con, w.Pos(e.Pos()), "before the scope is installed and before every binding")
-		} else {
-			r.Bad("R1", f.Name(), con, w.Pos(e.Pos()), "arguments must be evaluated in the caller's scope: "+bad)
-		}
-	}
-	if len(evals) == 0 {
-		r.Bad("R1", f.Name(), "no argument evaluation", w.Pos(f.Decl.Pos()), "arguments are never evaluated")
-	}
-	// R2: pairing through the same index
-	// eval: args[I] with I the key of a range over fn.Parameters; value stored in vals[I]
-	okEval := false
-	var valsObj types.Object
-	for _, e := range evals {
-		ix, ok := unparen(e.Args[0]).(*ast.IndexExpr)
-		if !ok || objOf(info, ix.X) != argsP {
-			continue
-		}
-		iv := objOf(info, ix.Index)
-		rs, _ := enclosingLoop(e).(*ast.RangeStmt)
-		if rs == nil || objOf(info, rs.Key) != iv || !isParamsOf(info, rs.X, fnP) {
-			continue
-		}
-		// result variable stored at vals[iv]
-		inspectBody(rs.Body, true, func(n ast.Node) bool {
-			as, ok := n.(*ast.AssignStmt)
-			if !ok || len(as.Lhs) != 1 {
-				return true
-			}
-			if lx, ok := unparen(as.Lhs[0]).(*ast.IndexExpr); ok && objOf(info, lx.Index) == iv {
-				valsObj = objOf(info, lx.X)
-				okEval = true
-			}
-			return true
-		})
-	}
-	okBind := false
-	for _, b := range binds {
-		rs, _ := enclosingLoop(b).(*ast.RangeStmt)
-		if rs == nil || !isParamsOf(info, rs.X, fnP) || len(b.Args) != 2 {
-			continue
-		}
-		// name: <rangeValue>.Value or fn.Parameters[key].Value
-		nameOK := false
-		if bx, fld := fieldOf(info, b.Args[0]); fld != nil && fld.Name() == "Value" {
-			if rs.Value != nil && objOf(info, bx) == objOf(info, rs.Value) {
-				nameOK = true
-			}
-			if ix, ok := unparen(bx).(*ast.IndexExpr); ok && isParamsOf(info, ix.X, fnP) && objOf(info, ix.Index) == objOf(info, rs.Key) {
-				nameOK = true
-			}
-		}
-		valOK := false
-		if vx, ok := unparen(b.Args[1]).(*ast.IndexExpr); ok && valsObj != nil && objOf(info, vx.X) == valsObj && objOf(info, vx.Index) == objOf(info, rs.Key) && rs.Key != nil {
-			valOK = true
-		}
-		if nameOK && valOK {
-			okBind = true
-		}
-	}
-	if okEval && okBind {
-		r.Ok("R2", f.Name(), "parameter i <- value of argument i", w.Pos(f.Decl.Pos()), "both loops range over the parameter list and use the range index for arguments, values and parameters")
-	} else {
-		r.Bad("R2", f.Name(), "parameter/argument pairing", w.Pos(f.Decl.Pos()), "parameter i must be bound to the value of argument i: the argument list, the value list and the parameter list must be indexed by the same range index")
-	}
-	// arity guard before any args[...] indexing
-	var firstIdx token.Pos
-	inspectBody(f.Decl.Body, true, func(n ast.Node) bool {
-		if ix, ok := n.(*ast.IndexExpr); ok && objOf(info, ix.X) == argsP {
-			if !firstIdx.IsValid() || ix.Pos() < firstIdx {
-				firstIdx = ix.Pos()
-			}
-		}
-		return true
-	})
-	okGuard := false
-	for _, st := range f.Decl.Body.List {
-		ifs, ok := st.(*ast.IfStmt)
-		if !ok || (firstIdx.IsValid() && ifs.Pos() > firstIdx) {
-			continue
-		}
-		be, ok := unparen(ifs.Cond).(*ast.BinaryExpr)
-		if !ok {
-			continue
-		}
-		lenOf := func(e ast.Expr) string {
-			c, ok := unparen(e).(*ast.CallExpr)
-			if !ok || builtinName(info, c) != "len" {
-				return ""
-			}
-			if objOf(info, c.Args[0]) == argsP {
-				return "args"
-			}
-			if isParamsOf(info, c.Args[0], fnP) {
-				return "params"
-			}
-			return ""
-		}
-		l, rr := lenOf(be.X), lenOf(be.Y)
-		short := (l == "args" && rr == "params" && (be.Op == token.LSS || be.Op == token.NEQ)) || (l == "params" && rr == "args" && (be.Op == token.GTR || be.Op == token.NEQ))
-		if short && len(ifs.Body.List) > 0 && isReturnNilErr(info, ifs.Body.List[len(ifs.Body.List)-1]) {
-			okGuard = true
-		}
-	}
-	if okGuard {
-		r.Ok("R2", f.Name(), "arity guard before args[i]", w.Pos(f.Decl.Pos()), "if len(args) < len(Parameters) { return nil, error }")
-	} else {
-		r.Bad("R2", f.Name(), "args[i] without arity guard", w.Pos(f.Decl.Pos()), "a call with fewer arguments than parameters indexes past the argument list (panic) instead of reporting an error")
-	}
-}
-
-func isParamsOf(info *types.Info, e ast.Expr, fnP *types.Var) bool {
-	bx, fld := fieldOf(info, e)
-	return fld != nil && fld.Name() == "Parameters" && objOf(info, bx) == fnP
-}
-
-func exitEndsBlockRule(r *Run, rule string) {
-	w := r.W
-	f := w.evalMethod("BlockStatement")
-	if f == nil {
-		r.Lost(rule, "block evaluator")
-		return
-	}
-	info := f.Pkg.TypesInfo
-	var loop *ast.RangeStmt
-	for _, st := range f.Decl.Body.List {
-		if rs, ok := st.(*ast.RangeStmt); ok {
-			loop = rs
-		}
-	}
-	if loop == nil {
-		r.Lost(rule, "statement loop of the block evaluator")
-		return
-	}
-	// `val, exit := i.(exitIface)`; if !exit {...} else {...; return X, nil}
-	okAll := false
-	inspectBody(loop.Body, true, func(n ast.Node) bool {
-		ifs, ok := n.(*ast.IfStmt)
-		if !ok || ifs.Else == nil {
-			return true
-		}
-		exitBranch := ifs.Else
-		cond := unparen(ifs.Cond)
-		if u, isNot := cond.(*ast.UnaryExpr); isNot && u.Op == token.NOT {
-			cond = u.X
-		} else {
-			exitBranch = ifs.Body
-		}
-		o := objOf(info, cond)
-		if o == nil {
-			return true
-		}
-		// o is the ok of a comma-ok assertion to an interface declared in package plush
-		isExitOK := false
-		inspectBody(loop.Body, true, func(m ast.Node) bool {
-			if as, ok := m.(*ast.AssignStmt); ok && len(as.Lhs) == 2 && len(as.Rhs) == 1 && objOf(info, as.Lhs[1]) == o {
-				if ta, ok := unparen(as.Rhs[0]).(*ast.TypeAssertExpr); ok && ta.Type != nil {
-					if _, isIface := info.Types[ta.Type].Type.Underlying().(*types.Interface); isIface {
-						isExitOK = true
-					}
-				}
-			}
-			return true
-		})
-		if !isExitOK {
-			return true
-		}
-		if blk, ok := exitBranch.(*ast.BlockStmt); ok && len(blk.List) > 0 {
-			if ret, ok := blk.List[len(blk.List)-1].(*ast.ReturnStmt); ok && len(ret.Results) == 2 && isNilIdent(info, ret.Results[1]) {
-				okAll = true
-			}
-		}
-		return true
-	})
-	if okAll {
-		r.Ok(rule, f.Name(), "exit object returns from the statement loop", w.Pos(loop.Pos()), "the branch taken for an exit object ends in return")
-	} else {
-		r.Bad(rule, f.Name(), "exit object does not end the block", w.Pos(loop.Pos()), "after a statement yields a return/break/continue object the block evaluator must return in that iteration; everything after the first return reached must be skipped")
-	}
 }
 
 func exitEscapesRule(r *Run, rule string) {
@@ -319,60 +66,6 @@ func exitEscapesRule(r *Run, rule string) {
 	} else {
 		r.Bad(rule, f.Name(), "return wrapper not opened", w.Pos(f.Decl.Pos()), "the call evaluator must open the return wrapper where the call returns")
 	}
-}
-
-func loopReturnRule(r *Run, rule string) {
-	w := r.W
-	f := w.evalMethod("ForExpression")
-	if f == nil {
-		r.Lost(rule, "for evaluator")
-		return
-	}
-	info := f.Pkg.TypesInfo
-	inspectBody(f.Decl.Body, true, func(n ast.Node) bool {
-		ts, ok := n.(*ast.TypeSwitchStmt)
-		if !ok {
-			return true
-		}
-		// the switches on the block result: they have a breakObject arm
-		hasBreak, hasReturn := false, false
-		for _, c := range ts.Body.List {
-			for _, e := range c.(*ast.CaseClause).List {
-				tn := typeStr(info.Types[e].Type)
-				if strings.HasSuffix(tn, "breakObject") {
-					hasBreak = true
-				}
-				if strings.HasSuffix(tn, "returnObject") {
-					hasReturn = true
-				}
-			}
-		}
-		if !hasBreak {
-			return true
-		}
-		// which loop
-		kind := "loop"
-		for p := w.Parent(ts); p != nil; p = w.Parent(p) {
-			if l, ok := p.(*ast.ForStmt); ok {
-				switch {
-				case l.Init == nil && l.Post == nil:
-					kind = "iterator loop"
-				case strings.Contains(short(w.Fset, l.Cond), "len("):
-					kind = "map loop"
-				default:
-					kind = "slice loop"
-				}
-				break
-			}
-		}
-		if hasReturn {
-			r.Ok(rule, f.Name(), kind+": return object propagated", w.Pos(ts.Pos()), "arm for the return wrapper")
-		} else {
-			r.Bad(rule, f.Name(), kind+": return object treated as output", w.Pos(ts.Pos()),
-				"a return reached inside the loop body is appended to the loop's output like ordinary text and the loop goes on; 'fn(){ for ... { return x } return 9 }' yields 9")
-		}
-		return true
-	})
 }
 
 func firstClassRule(r *Run, rule string) {
@@ -510,53 +203,5 @@ func firstClassRule(r *Run, rule string) {
 		r.Ok(rule, litEval.Name(), "function value captures node.Parameters and node.Block", w.Pos(litEval.Decl.Pos()), "by reference, unmodified")
 	} else {
 		r.Bad(rule, litEval.Name(), "function value", w.Pos(litEval.Decl.Pos()), "a function literal must evaluate to a value holding exactly the literal's parameters and block")
-	}
-}
-
-func returnWrapRule(r *Run, rule string) {
-	w := r.W
-	f := w.evalMethod("ReturnStatement")
-	evalExpr := w.evalMethod("Expression")
-	if f == nil || evalExpr == nil {
-		r.Lost(rule, "return evaluator")
-		return
-	}
-	info := f.Pkg.TypesInfo
-	node := f.Obj.Type().(*types.Signature).Params().At(0)
-	// statements: res, err := eval(node.ReturnValue); if err != nil {return nil, err}; if node.Type == RETURN { wrap }; return res, nil
-	evalIdx, wrapIdx := -1, -1
-	for i, st := range f.Decl.Body.List {
-		switch x := st.(type) {
-		case *ast.AssignStmt:
-			if len(x.Rhs) == 1 {
-				if c, ok := x.Rhs[0].(*ast.CallExpr); ok && calleeOf(info, c) == evalExpr.Obj {
-					evalIdx = i
-				}
-			}
-		case *ast.IfStmt:
-			if be, ok := unparen(x.Cond).(*ast.BinaryExpr); ok && be.Op == token.EQL {
-				if bx, fld := fieldOf(info, be.X); fld != nil && fld.Name() == "Type" && objOf(info, bx) == node {
-					if s, ok := constString(info, be.Y); ok && s == "RETURN" {
-						wrapIdx = i
-					}
-				}
-			}
-		}
-	}
-	if evalIdx < 0 || wrapIdx < 0 || wrapIdx < evalIdx {
-		r.Bad(rule, f.Name(), "wrap of the returned value", w.Pos(f.Decl.Pos()), "a return statement must wrap its value into the return object")
-		return
-	}
-	ok := true
-	for _, st := range f.Decl.Body.List[evalIdx+1 : wrapIdx] {
-		ifs, isIf := st.(*ast.IfStmt)
-		if !isIf || !isErrNotNil(info, ifs.Cond) || len(conjuncts(ifs.Cond)) != 1 || len(disjuncts(ifs.Cond)) != 1 {
-			ok = false
-			r.Bad(rule, f.Name(), "early exit before the wrap "+short(w.Fset, st), w.Pos(st.Pos()),
-				"between evaluating the value and wrapping it only 'if err != nil { return nil, err }' may intervene; any other early exit lets some return value (for example nil) fall through unwrapped, so the function body keeps running after the return")
-		}
-	}
-	if ok {
-		r.Ok(rule, f.Name(), "every value of a return statement is wrapped", w.Pos(f.Decl.Body.List[wrapIdx].Pos()), "only the error check precedes the wrap")
 	}
 }
